@@ -164,6 +164,7 @@ func relName(f *ssa.Function) string {
 func ConfigureEmittedWorld(w *World) {
 	w.CheckOverflow = false
 	w.InlineSmall = true
+	w.InlineClosures = true
 	w.DynamicPolicy = func(e *FuncEnc, in ssa.Instruction, name string) CallKind {
 		name = strings.ReplaceAll(name, "emitted.", "")
 		switch {
